@@ -5,6 +5,7 @@ import session_common as SC
 
 def tasks(tier, seed):
     ts = SC.session_tasks(tier, ['CHECK_C05'], 'c05', ('C05:',))
+    ts += SC.big_session_tasks(tier, 'c05', ('C05:',))
     meta = dict(
         level='model_checking',
         explanation='After close() of a symbolically executed write session the header bytes on the in-memory disk are compared '
